@@ -133,6 +133,8 @@ class World(object):
                 os.chmod(p, nd.get('m', 0o644))
             elif t == 'l':
                 os.symlink(subst(nd['to'], R), p)
+            elif t == 'p':
+                os.mkfifo(p, nd.get('m', 0o644))
             else:
                 raise ValueError('bad node type %r' % t)
             mt = nd.get('mt')
